@@ -71,6 +71,18 @@ export (paloma module; `lReimport`).  Answer: `<ok|rej>,…|<principal>:<activat
 = result per step and, for every light-node principal named in the line (ids from 31, ascending;
 lower ids are accounts that exist before the history), its client record (`-` = none) and whether
 a licence is pending (`lDeliver` / `lAccepted` / `lStep`).
+
+  xdh <route w|t> <actor> <grants> <dispatch> <dispatch> …
+      with <dispatch> = <outer>/<h>/<victim>/<chg>/<leaf>+<leaf>+…  and <leaf> = <type>;<creator>;<extra>
+
+a sequence of contract dispatches through ONE router value (route `w`: `actor` is the contract) or of
+transactions signed by `actor` (route `t`), each carrying ONE top-level message: `outer` = 0: the single
+leaf itself; `outer` = k > 0: an `authz.MsgExec` (grantee = actor) holding ALL the leaves in the given order,
+wrapped k-1 more times; every leaf is a paloma message with `metadata.creator` = `creator`, declared signer =
+actor, itself wrapped in `extra` more `MsgExec` layers.  `h` / `chg` / `victim` as for `tx` (what the
+implementation answered; change of the watched principal's state).  Answer per dispatch, comma separated:
+`gate=<pass|rej>:res=<ok|rej>:<fine|violation>` (`wasmDispatchTopBounded` / `anteOkTopBounded`; the gate of a
+dispatch never depends on the dispatches before it: `wasmRouterRun`).
 -/
 namespace Driver.C03
 open Paloma.Auth
@@ -304,8 +316,71 @@ def stepLightHistory (fg accs : String) (toks : List String) : String :=
     ",".intercalate outs ++ "|" ++ ",".intercalate recs
   | _, _, _ => "bad-op"
 
+/-! ### `xdh`: dispatches / transactions carrying `MsgExec` with several messages, one router value -/
+
+structure XLeaf where
+  typ : String
+  creator : Nat
+  extra : Nat
+
+def parseXLeaf? (tok : String) : Option XLeaf :=
+  match tok.splitOn ";" with
+  | [typ, cr, j] => do
+    let creator ← parseNat? cr
+    let extra ← parseNat? j
+    pure { typ, creator, extra }
+  | _ => none
+
+structure XDisp where
+  outer : Nat
+  h : String
+  victim : Nat
+  chg : Nat
+  leaves : List XLeaf
+
+def parseXDisp? (tok : String) : Option XDisp :=
+  match tok.splitOn "/" with
+  | [o, h, v, c, ls] => do
+    let outer ← parseNat? o
+    let victim ← parseNat? v
+    let chg ← parseNat? c
+    let leaves ← (ls.splitOn "+").mapM parseXLeaf?
+    if (h != "ok" && h != "rej" && h != "pre") || chg > 2 || leaves.isEmpty then none
+    else if outer == 0 && leaves.length != 1 then none
+    else pure { outer, h, victim, chg, leaves }
+  | _ => none
+
+/-- the dispatched message as a `Top` of the model: every leaf declares the actor as its signer -/
+def xTop (actor : Nat) (d : XDisp) : Top :=
+  let items := d.leaves.map fun l =>
+    wrapN actor (toMsg { typ := l.typ, metaSigners := [actor], creator := l.creator, authf := none }) l.extra
+  match d.outer, items with
+  | 0, [t] => t
+  | 0, _ => .exec actor items
+  | k + 1, _ => wrapTop actor (.exec actor items) k
+
+def stepDispatchHistory (route act gs : String) (toks : List String) : String :=
+  match parseNat? act, parsePairList? gs, toks.mapM parseXDisp? with
+  | some actor, some grantList, some ds =>
+    if ds.isEmpty || (route != "w" && route != "t") then "bad-op" else
+    let grants := grantsFn grantList
+    let outs := ds.map fun d =>
+      let top := xTop actor d
+      let known := d.leaves.all fun l => (ruleOf l.typ).isSome
+      let gate := d.h != "pre" && known &&
+        (if route == "w" then wasmDispatchTopBounded actor top else anteOkTopBounded [top] grants)
+      let res := gate && d.h == "ok"
+      -- the victim's state may change only by a message in its name that the victim authorised
+      let may := d.leaves.any fun l => l.creator == d.victim &&
+        (d.victim == actor || (route == "t" && grants d.victim actor))
+      let verdict := if d.chg == 0 then "fine" else if !res then "violation" else if may then "fine" else "violation"
+      s!"gate={if gate then "pass" else "rej"}:res={if res then "ok" else "rej"}:{verdict}"
+    ",".intercalate outs
+  | _, _, _ => "bad-op"
+
 def step (args : List String) : String :=
   match args with
+  | "xdh" :: route :: act :: gs :: toks => stepDispatchHistory route act gs toks
   | "lnh" :: fg :: accs :: toks => stepLightHistory fg accs toks
   | "dnh" :: namesake :: foreign :: toks => stepDenomHistory namesake foreign toks
   | "cbh" :: keys :: toks => stepConfirmHistory keys toks
